@@ -99,8 +99,17 @@ def http (inp : Json) : R Res := do
   return { m := Json.mkObj [("status", Json.str (if o.err.isSome then "rejected" else "ok")), ("entities", l), ("changes", l)],
            nt := decide (stored.length ≥ 1) }
 
+/-- `c15.txn`: ParseTransaction must agree, dataset by dataset, with ParseStream on the same elements (the harness
+computes both with the real parsers); a transaction is an error exactly when one of its collections is. The counts of
+emitted entities are observations of the reference parser, not predicted here. -/
+def txn (inp : Json) (out? : Unit) : R Res := do
+  let _ := out?
+  let parts := getArrD inp "parts"
+  return { m := Json.mkObj [("same", Json.bool true), ("parts", jNat parts.size)], nt := decide (parts.size ≥ 2) }
+
 def handle (k : String) (inp : Json) : Option (R Res) :=
   match k with
+  | "c15.txn" => some (txn inp ())
   | "c15.stream" => some (stream inp)
   | "c15.http" => some (http inp)
   | _ => none
